@@ -36,7 +36,7 @@ KqDirEntry == NOTE_DELETE + NOTE_RENAME          \* a subdirectory entry of a wa
 (*   ent    : user dir path -> set of [n, kind] entries known to be there  *)
 (*   ws     : Ideal watcher state used for the expected events             *)
 (*   flags  : context for cause signatures (known deviations)              *)
-K0 == [on |-> FALSE, bagmode |-> FALSE, fresh |-> TRUE, failed |-> {}, pend |-> EmptyFn, opt |-> EmptyFn, evc |-> FALSE, errc |-> FALSE, user |-> EmptyFn, ent |-> EmptyFn, flags |-> {}, seq |-> 0, closed |-> FALSE, bad |-> <<>>, tags |-> {}]
+K0 == [on |-> FALSE, bagmode |-> FALSE, fresh |-> TRUE, failed |-> {}, pend |-> EmptyFn, opt |-> EmptyFn, evc |-> FALSE, errc |-> FALSE, user |-> EmptyFn, ent |-> EmptyFn, flags |-> {}, seq |-> 0, closed |-> FALSE, bad |-> <<>>, tags |-> {}, kfault |-> FALSE, nunw |-> 0]
 G0 == [id |-> "", start |-> 0, infra |-> <<>>, events |-> 0]
 
 Init == l = 1 /\ K = K0 /\ g = G0 /\ TLCSet(1, 1) /\ TLCSet(3, EmptyFn)
@@ -64,6 +64,8 @@ ExpectBag(k, evs) ==
       last  == SelectSeq(evs, LAMBDA e : e[2] = OpCreate) IN
   FoldLeft(LAMBDA kk, e : Expect(kk, e[1], e[2]), k, first \o last)
 
+\* the name of entry n of the watched directory u: the directory's name as the user spelled it (cleaned), joined with n
+EN(u, n) == IF u = <<".">> THEN <<n>> ELSE Append(u, n)
 \* user watches whose directory (really) is dir
 DirWatches(k, dir) == {u \in DOMAIN k.user : k.user[u].isdir /\ k.user[u].real = dir}
 Known(k, u, n) == \E e \in k.ent[u] : e.n = n
@@ -87,17 +89,17 @@ ApplyOp1(k, o) ==
        IN
   CASE o.op \in {"create", "mkdir", "symlink", "mkfifo"} ->
          ForAll(k, DW, LAMBDA kk, u : IF o.op = "mkfifo" THEN [kk EXCEPT !.flags = @ \cup {"fifo_entry"}]
-                                      ELSE AddEnt(Expect(kk, Append(u, n), OpCreate), u, n, o.kind))
+                                      ELSE AddEnt(Expect(kk, EN(u, n), OpCreate), u, n, o.kind))
     [] o.op = "write" ->
-         LET names == {Append(u, n) : u \in {u \in DW : Known(k, u, n) /\ KindIn(k, u, n) # "dir"}} \cup FileWatches(k, p) IN
+         LET names == {EN(u, n) : u \in {u \in DW : Known(k, u, n) /\ KindIn(k, u, n) # "dir"}} \cup FileWatches(k, p) IN
          ForAll(k, names, LAMBDA kk, nm : Expect(kk, nm, OpWrite))
     [] o.op \in {"chmod", "trunc"} ->
-         LET names == {Append(u, n) : u \in {u \in DW : Known(k, u, n) /\ KindIn(k, u, n) # "dir"}} \cup FileWatches(k, p) \cup DirWatches(k, p) IN
+         LET names == {EN(u, n) : u \in {u \in DW : Known(k, u, n) /\ KindIn(k, u, n) # "dir"}} \cup FileWatches(k, p) \cup DirWatches(k, p) IN
          ForAll(k, names, LAMBDA kk, nm : Expect(kk, nm, OpChmod))
     [] o.op \in {"unlink", "rmdir"} ->
          \* one event per watched *path* (a user watch on an entry of a watched directory shares its descriptor)
          LET ents == {u \in DW : Known(k, u, n)}
-             names == {Append(u, n) : u \in ents} \cup FileWatches(k, p) \cup DirWatches(k, p)
+             names == {EN(u, n) : u \in ents} \cup FileWatches(k, p) \cup DirWatches(k, p)
              k1 == ForAll(k, names, LAMBDA kk, nm : Expect(kk, nm, OpRemove))
              k2 == ForAll(k1, ents, LAMBDA kk, u : DelEnt(kk, u, n))
              gone == FileWatches(k, p) \cup DirWatches(k, p)
@@ -112,8 +114,8 @@ ApplyOp1(k, o) ==
              \* a watched single file that is replaced: Remove and Create, and the watch stays on the new file
              \* (the repository's recorded kqueue expectation, testdata/watch-file/overwrite-watched-file)
              tself == FileWatches(k, q)
-             evs == {<<Append(u, n), OpRename>> : u \in outs} \cup {<<u, OpRename>> : u \in self}
-                    \cup {<<Append(u, n2), OpRemove>> : u \in ovw} \cup {<<Append(u, n2), OpCreate>> : u \in ovw \cup ins}
+             evs == {<<EN(u, n), OpRename>> : u \in outs} \cup {<<u, OpRename>> : u \in self}
+                    \cup {<<EN(u, n2), OpRemove>> : u \in ovw} \cup {<<EN(u, n2), OpCreate>> : u \in ovw \cup ins}
                     \cup {<<u, OpRemove>> : u \in tself} \cup {<<u, OpCreate>> : u \in tself}
              k1 == IF evs = {} THEN k ELSE ExpectBag(k, SetToSeq(evs))
              k2 == ForAll(k1, outs, LAMBDA kk, u : DelEnt(kk, u, n))
@@ -133,6 +135,46 @@ ApplyOp(k0, o) ==
   LET R == ApplyOp1([k0 EXCEPT !.bagmode = @ \/ ~k0.fresh \/ Cardinality(DirWatches(k0, Parent(<<"/">> \o o.p)) \cup FileWatches(k0, <<"/">> \o o.p)
                                                             \cup DirWatches(k0, <<"/">> \o o.p)) > 1], o)
   IN [R EXCEPT !.bagmode = k0.bagmode, !.fresh = FALSE]
+
+\* ---- a burst made faster than the reader wakes up ---------------------------------
+(* All operations of the burst precede the first retrieval.  The kernel facts are taken from the trace line: the    *)
+(* NOTE_* bits each knote (named by the path its descriptor was opened with) has accumulated, and the content of     *)
+(* every directory when the burst ends.  What the properties then require, per entry of a watched directory:         *)
+(*  - an entry known before the burst whose vnode was touched: ONE event under its name carrying the union of the    *)
+(*    operations (renamed away and then changed or removed under the new name: still the old name - the name the     *)
+(*    Watcher knows it by);                                                                                          *)
+(*  - a name that is in the directory afterwards and is new, or whose former holder was removed / renamed away:      *)
+(*    Create, once, after the event of the former holder;                                                            *)
+(*  - entries that came and went inside the burst are invisible to kqueue: nothing.                                  *)
+AllNotes(ln) == FlattenSeq([i \in 1..Len(ln.ops) |-> ln.ops[i].notes])
+NoteOf(ns, W) == FoldLeft(LAMBDA a, x : IF x.path = W THEN OrBits(a, x.note) ELSE a, 0, ns)
+FinalOf(ln, R) == LET S == {i \in 1..Len(ln.final) : ln.final[i].dir = R} IN
+                  IF S = {} THEN {} ELSE LET i == CHOOSE i \in S : TRUE IN
+                  {[n |-> ln.final[i].names[j].n, kind |-> ln.final[i].names[j].kind] : j \in 1..Len(ln.final[i].names)}
+BurstAtomic(k0, ln) ==
+  IF ~k0.on \/ k0.closed THEN k0
+  ELSE
+  LET ns == AllNotes(ln)
+      Gone(W) == HasBit(NoteOf(ns, W), NOTE_DELETE) \/ HasBit(NoteOf(ns, W), NOTE_RENAME)
+      dirs == {u \in DOMAIN k0.user : k0.user[u].isdir}
+      files == (DOMAIN k0.user) \ dirs
+      OneDir(k, u) ==
+        LET E == k.ent[u]
+            F == FinalOf(ln, k.user[u].real)
+            hit == {e \in E : e.kind # "fifo" /\ KqueueOpOf(NoteOf(ns, EN(u, e.n))) # 0}
+            k1 == ForAll(k, hit, LAMBDA kk, e : Expect(kk, EN(u, e.n), KqueueOpOf(NoteOf(ns, EN(u, e.n)))))
+            new == {f \in F : (~\E e \in E : e.n = f.n) \/ Gone(EN(u, f.n))}
+            k2 == ForAll(k1, new, LAMBDA kk, f : Expect(kk, EN(u, f.n), OpCreate))
+            self == KqueueOpOf(NoteOf(ns, u) - (IF HasBit(NoteOf(ns, u), NOTE_WRITE) THEN NOTE_WRITE ELSE 0))
+            k3 == IF self # 0 THEN Expect(k2, u, self) ELSE k2
+            \* a name whose holder was renamed away (not removed) is in use again when the reader gets there
+            reused == \E e \in E : HasBit(NoteOf(ns, EN(u, e.n)), NOTE_RENAME) /\ ~HasBit(NoteOf(ns, EN(u, e.n)), NOTE_DELETE)
+                                   /\ (\E f \in F : f.n = e.n)
+        IN [k3 EXCEPT !.ent[u] = F, !.flags = @ \cup (IF reused THEN {"renamed_name_reused"} ELSE {})]
+      OneFile(k, u) == IF KqueueOpOf(NoteOf(ns, u)) # 0 THEN Expect(k, u, KqueueOpOf(NoteOf(ns, u))) ELSE k
+      k9 == ForAll(ForAll(KTag(k0, "atomic_burst"), dirs, OneDir), files, OneFile)
+      ended == {u \in DOMAIN k0.user : Gone(u)}
+  IN [k9 EXCEPT !.fresh = FALSE, !.user = Without(@, ended), !.ent = Without(@, ended \cap DOMAIN k9.ent)]
 
 \* (several watches on one directory - the same directory added under two spellings - report the same
 \*  operation in descriptor order: such events are not ordered among themselves)
@@ -163,6 +205,7 @@ Fs == /\ IsKind("fs")
       \* rm -r of a watched directory: the directory's own knote is activated by the first unlink and is retrieved
       \* first or last depending on timing, so the Remove events of one rm -r are not ordered among themselves
       /\ K' = IF Line.op = "rep" THEN (IF Line.ops = <<>> THEN K
+                                       ELSE IF Line.atomic THEN BurstAtomic(K, Line)
                                        ELSE [FoldLeft(LAMBDA k, o : ApplyOp(k, o), [KTag(K, "burst") EXCEPT !.bagmode = Line.unordered], Line.ops) EXCEPT !.bagmode = FALSE])
               ELSE ApplyOp(K, Line)
       /\ g' = g /\ Next1
@@ -178,6 +221,8 @@ CallK(k, c) ==
          ELSE LET P == Clean(c.abs, c.arg) IN
               IF c.tkind = "missing" THEN (IF c.ret = "ok" THEN KBad(k, {"C17"}, "add_ok_on_missing") ELSE k)
               ELSE IF c.tkind = "fifo" THEN [k EXCEPT !.flags = @ \cup {"fifo_watch"}]
+              \* the injected kevent failure hit this Add (its own registration): it fails and leaves nothing behind
+              ELSE IF k.kfault /\ c.ret = "errno:ENOMEM" THEN KTag([k EXCEPT !.kfault = FALSE], "add_failed_in_kernel")
               \* a directory with an entry that cannot be opened (dangling link): Add may fail; then nothing is watched
               ELSE IF c.ret # "ok" /\ c.tkind = "dir" /\ (\E i \in 1..Len(c.entries) : c.entries[i].tkind = "missing")
                    THEN KTag([k EXCEPT !.flags = @ \cup {"failed_dir_add"}, !.failed = @ \cup {P}], "failed_add")
@@ -230,7 +275,9 @@ Lens(f, v) == IF v.name \in DOMAIN f THEN {m \in 1..Len(f[v.name]) : PrefU(f[v.n
 
 \* the set of possible successors (which prefix an event stands for may be ambiguous)
 RecvK(k, v) ==
-  CASE v.t = "err" -> {KBad(k, {"C18"}, "error:" \o v.cls)}
+  CASE v.t = "err" -> {IF k.kfault /\ v.cls = "errno:ENOMEM"      \* the injected failure hit the reader while it was covering a new entry
+                       THEN KTag([k EXCEPT !.kfault = FALSE, !.nunw = @ + 1], "entry_unwatchable")
+                       ELSE KBad(k, {"C18"}, "error:" \o v.cls)}
     [] v.t = "closed" -> {IF ~k.closed THEN KBad(k, {"C17"}, "channel_closed_without_close")
                           ELSE IF v.ch = "ev" THEN [k EXCEPT !.evc = TRUE] ELSE [k EXCEPT !.errc = TRUE]}
     [] v.t = "ev" ->
@@ -264,7 +311,7 @@ Drain == /\ IsKind("drain")
 ObsK(k, o) ==
   LET fdset == {o.fds[i].fd : i \in 1..Len(o.fds)}
       wdset == {o.wds[i] : i \in 1..Len(o.wds)}
-      want  == DOMAIN k.user \cup UNION {{Append(u, e.n) : e \in {x \in k.ent[u] : x.kind # "fifo"}} : u \in DOMAIN k.ent}
+      want  == DOMAIN k.user \cup UNION {{EN(u, e.n) : e \in {x \in k.ent[u] : x.kind # "fifo"}} : u \in DOMAIN k.ent}
       idle  == o.rd = "sync.Cond.Wait" /\ o.pendingnotes = 0
   IN
   IF k.closed THEN
@@ -273,20 +320,25 @@ ObsK(k, o) ==
   ELSE IF ~idle THEN k
   ELSE LET k1 == IF fdset # wdset THEN KBad(k, {"C17"}, IF fdset \ wdset # {} THEN "descriptor_outside_tables" ELSE "table_entry_without_descriptor") ELSE k
            k2 == IF Cardinality(fdset) > Cardinality(want) THEN KBad(k1, {"C17"}, "more_descriptors_than_watches")
-                 ELSE IF Cardinality(fdset) < Cardinality(want) THEN KBad(k1, {"C17", "C18"}, "entry_not_watched") ELSE k1
+                 ELSE IF Cardinality(fdset) < Cardinality(want) - k.nunw THEN KBad(k1, {"C17", "C18"}, "entry_not_watched") ELSE k1
            k3 == IF DOMAIN k.user = {} /\ (o.npath > 0 \/ o.nbydir > 0 \/ o.nseen > 0 \/ o.nbyuser > 0 \/ Len(o.wds) > 0)
                  THEN KBad(k2, {"C17"}, "table_entries_left_when_nothing_is_watched") ELSE k2
        IN KTag(k3, "obs_idle")
 
+\* the injected failure has happened without a failing call or an error on Errors: it hit the reader while it was
+\* covering a new entry of a watched directory (the backend drops that error): one entry is not watched
+Silent(k, o) == IF k.kfault /\ o.kfaultleft = 0 THEN KTag([k EXCEPT !.kfault = FALSE, !.nunw = @ + 1], "entry_unwatchable") ELSE k
 Obs == /\ IsKind("obs")
-       /\ K' = IF K.on THEN ObsK(K, Line) ELSE K
+       /\ K' = IF K.on THEN ObsK(Silent(K, Line), Line) ELSE K
        /\ g' = IF ~Line.q THEN Infra("not quiescent at obs") ELSE g
        /\ Next1
+
+Kfault == /\ IsKind("kfault") /\ K' = [K EXCEPT !.kfault = TRUE] /\ g' = g /\ Next1
 
 Crash == /\ IsKind("crash") /\ K' = KBad(K, {"C17", "C18"}, "crash:" \o Line.cls) /\ g' = g /\ Next1
 Other == /\ l <= Len(Trace) /\ Line.k \in {"bad"} /\ K' = K /\ g' = Infra("bad step") /\ Next1
 
-Next == (Reset \/ End \/ New \/ Fs \/ Call \/ Recv \/ Drain \/ Obs \/ Crash \/ Other)
+Next == (Reset \/ End \/ New \/ Fs \/ Call \/ Recv \/ Drain \/ Obs \/ Kfault \/ Crash \/ Other)
         /\ TLCSet(1, IF TLCGet(1) > l' THEN TLCGet(1) ELSE l')
 Spec == Init /\ [][Next]_vars
 
